@@ -119,3 +119,32 @@ fn d38_buffer_size_db_24_bits() {
     });
     assert!(res.is_ok(), "write_end panicked: buffer_size_db does not fit 24 bits");
 }
+
+/// D-32: AAC object types >= 32 do not fit the 5-bit field the muxer writes: MpegLayer3 (34) read back as AacLowComplexity
+#[test]
+fn d32_extended_object_type_not_encodable() {
+    let track = TrackConfig { track_type: TrackType::Audio, timescale: 48000, language: "und".into(),
+        media_conf: MediaConfig::AacConfig(AacConfig { bitrate: 0, profile: AudioObjectType::MpegLayer3, freq_index: SampleFreqIndex::Freq48000, chan_conf: ChannelConfig::Stereo }) };
+    let mut w = Mp4Writer::write_start(Cursor::new(Vec::new()), &cfg()).unwrap();
+    if w.add_track(&track).is_err() { return; } // rejecting is correct
+    w.write_sample(1, &sample(b"abcd", 1024, true)).unwrap();
+    w.write_end().unwrap();
+    let r = demux(w.into_writer().into_inner());
+    assert_eq!(r.tracks()[&1].audio_profile().unwrap(), AudioObjectType::MpegLayer3);
+}
+
+/// D-39: an SPS / PPS of 64 KiB or more was written with its length truncated to 16 bits
+#[test]
+fn d39_parameter_set_64k() {
+    let mut sps = vec![0x67u8, 66, 0, 30]; sps.resize(0x10004, 0xAA);
+    let track = TrackConfig { track_type: TrackType::Video, timescale: 90000, language: "und".into(),
+        media_conf: MediaConfig::AvcConfig(AvcConfig { width: 16, height: 16, seq_param_set: sps.clone(), pic_param_set: vec![0x68, 1, 2, 3] }) };
+    let mut w = Mp4Writer::write_start(Cursor::new(Vec::new()), &cfg()).unwrap();
+    if w.add_track(&track).is_err() { return; } // rejecting is correct
+    w.write_sample(1, &sample(b"abcd", 3000, true)).unwrap();
+    w.write_end().unwrap();
+    let bytes = w.into_writer().into_inner();
+    let size = bytes.len() as u64;
+    let r = Mp4Reader::read_header(Cursor::new(bytes), size).expect("the muxer's own output must parse");
+    assert_eq!(r.tracks()[&1].sequence_parameter_set().unwrap(), &sps[..]);
+}
